@@ -7,7 +7,7 @@ SCRIPT = [7, 8, 7, 7, 8, 7]          # 7 matches `when`, 8 does not
 N = 2                                 # the call budget of `times`
 BURST_N, BURST_T, BURST_CALLS = 5000, 8, 1000     # second phase: budget, threads, calls per thread
 
-def program(a):
+def program(a, capture=None):
     quals = ("unsafe " if a["m_unsafe"] else "") + (f'extern "{a["m_abi"]}" ' if a["m_abi"] else "")
     R = "()" if a["m_unit"] else "u64"
     ty = f"{quals}fn(u64, u64) -> {R}"
@@ -22,6 +22,17 @@ def program(a):
     if a["assign"]: opts.append(f"assign: {{ ASSIGNS.fetch_add(1, SeqCst); SEEN.store({ua} as usize, SeqCst); A_STAMP.store(CLOCK.fetch_add(1, SeqCst) + 1, SeqCst); let _alive = Alive::new(); let a = a ^ (1u64 << 40); std::hint::black_box(a); }}")
     if a["returns"]: opts.append(f"returns: {{ EVALS.fetch_add(1, SeqCst); R_STAMP.store(CLOCK.fetch_add(1, SeqCst) + 1, SeqCst); 9000 + {ua} + EVALS.load(SeqCst) as u64 + 1_000_000 * ALIVE.load(SeqCst) as u64 }}")
     if a["times"]: opts.append(f"times: {N}")
+    cap_decl = cap_print = ""
+    if capture:
+        # the caller has an item of its own named `capture` and mentions it in every clause: it must mean the CALLER's item there
+        def wrap(o):
+            if o.startswith("when: "): return "when: { CAP_W.store(" + capture + " as usize, SeqCst); " + o[6:] + " }"
+            if o.startswith("assign: {"): return "assign: { CAP_A.store(" + capture + " as usize, SeqCst); " + o[len("assign: {"):]
+            if o.startswith("returns: {"): return "returns: { CAP_R.store(" + capture + " as usize, SeqCst); " + o[len("returns: {"):]
+            return o
+        opts = [wrap(o) for o in opts]
+        cap_decl = f"const {capture}: u64 = 4096;\nstatic CAP_W: AtomicUsize = AtomicUsize::new(0);\nstatic CAP_A: AtomicUsize = AtomicUsize::new(0);\nstatic CAP_R: AtomicUsize = AtomicUsize::new(0);\n"
+        cap_print = '\n    println!("CAPTURE when={} assign={} returns={}", CAP_W.load(SeqCst), CAP_A.load(SeqCst), CAP_R.load(SeqCst));'
     call = "unsafe { f(a, 1) }" if a["m_unsafe"] else "f(a, 1)"
     body = "{ std::hint::black_box((a, b)); }" if a["m_unit"] else "{ std::hint::black_box(b); 100 + a }"
     val = '"-".to_string()' if a["m_unit"] else "v.to_string()"
@@ -54,7 +65,7 @@ use injectorpp::interface::injector::*;
 use std::io::Write;
 use std::panic::{{catch_unwind, AssertUnwindSafe}};
 use std::sync::atomic::{{AtomicUsize, Ordering::SeqCst}};
-static ASSIGNS: AtomicUsize = AtomicUsize::new(0);
+{cap_decl}static ASSIGNS: AtomicUsize = AtomicUsize::new(0);
 static EVALS: AtomicUsize = AtomicUsize::new(0);
 static SEEN: AtomicUsize = AtomicUsize::new(0);
 static ALIVE: AtomicUsize = AtomicUsize::new(0);
@@ -105,7 +116,7 @@ fn main() {{
     println!("{{pfx}}EXIT {{}}", match r {{ Ok(()) => "normal".to_string(), Err(e) => class(&msg(&e)).to_string() }});
     }}
     let after = catch_unwind(|| call(7));
-    println!("AFTER {{}}", if after.is_ok() {{ "original" }} else {{ "panics" }});{phase2}
+    println!("AFTER {{}}", if after.is_ok() {{ "original" }} else {{ "panics" }});{cap_print}{phase2}
 }}
 '''
 
@@ -126,7 +137,22 @@ def expected(a):
     exit_ = "normal" if (not a["times"] or ctr == N) else "count"
     return out, exit_, aborts and out[-1][0] != "ret"
 
-def compile_and_run(res, arms, workdir):
+def capture_cases(arms):
+    """(arm, name) pairs: names that this arm's expansion declares as items although other arms taking the SAME options do not (those the whole
+    group declares are the macro's fixed vocabulary); such a name, owned by the caller and mentioned in a clause, is the probe"""
+    groups = {}
+    for a in arms: groups.setdefault((a["when"], a["assign"], a["returns"], a["times"]), []).append(a)
+    out = []
+    for g in groups.values():
+        common = set.intersection(*[set(a.get("items", [])) for a in g])
+        for a in g:
+            for name in sorted(set(a.get("items", [])) - common):
+                sib = [b for b in g if name not in b.get("items", [])]
+                ref = next((b for b in sib if not b["m_abi"]), None) or (sib[0] if sib else None)      # a sibling whose panics can unwind, if there is one
+                out.append((a, name, ref))
+    return out
+
+def compile_and_run(res, arms, workdir, capture=None):
     """-> {index: dict(compiled=bool, rustc_msg, lines=[...], status)}"""
     ok, out, d = vlib.cargo_build("real", "debug")
     if not ok:
@@ -138,7 +164,7 @@ def compile_and_run(res, arms, workdir):
     procs = {}
     for a in arms:
         src = os.path.join(workdir, f"arm_{a['index']}.rs")
-        open(src, "w").write(program(a))
+        open(src, "w").write(program(a, capture))
         procs[a["index"]] = subprocess.Popen(["rustc", "--edition", "2021", "-L", f"dependency={deps}", "--extern", f"injectorpp={rl[-1]}", "-C", "debuginfo=0", src, "-o", src[:-3]],
                                              stdout=subprocess.PIPE, stderr=subprocess.STDOUT, text=True, env=vlib.ENV)
         if len(procs) % 16 == 0:
